@@ -70,6 +70,9 @@ class PathCtx:
         self.solver_calls = 0
         self.notes = []
         self.ghost = {}
+        self.branch_timeout_ms = timeout_ms
+        self.eager_timeout_ms = 0
+        self.cut_mark = 0
 
     def fresh_int(self, hint='v', lo=None, hi=None):
         self.fresh_n += 1
@@ -139,10 +142,28 @@ class PathCtx:
             return False
         raise PathEnd()  # path condition itself infeasible
 
+    def begin_scope(self):
+        """constraints assumed from here on can be forgotten at end_scope (sound: forgetting assumptions only weakens them)"""
+        self.solver.push()
+        return len(self.pc)
+
+    def end_scope(self, mark, keep=()):
+        self.solver.pop()
+        del self.pc[mark:]
+        for k in keep:
+            self.assume(k)
+
     def entails(self, cond):
         cond = sx.to_bool(cond)
         if not is_sym(cond):
             return bool(cond)
+        if self.cut_mark:
+            s1 = z3.Solver()
+            s1.set('timeout', 1000)
+            s1.add(*self.pc[self.cut_mark:])
+            s1.add(z3.Not(cond))
+            if s1.check() == z3.unsat:
+                return True
         self.solver.push()
         self.solver.add(z3.Not(cond))
         self.solver_calls += 1
@@ -150,10 +171,48 @@ class PathCtx:
         self.solver.pop()
         return r == z3.unsat
 
+    def check_now(self, goal, timeout_ms):
+        """decide pc => goal with the path's incremental solver (pc is already asserted in it).
+        returns (status, seconds, model|None, reason); 'unknown' results are retried by the caller with a fresh solver / cvc5"""
+        import time as _t
+        t0 = _t.time()
+        goal = sx.to_bool(goal)
+        if not is_sym(goal) and goal:
+            return 'unsat', 0.0, None, ''
+        if self.cut_mark and is_sym(goal):
+            # stage 1: only what was assumed since the last loop cut (a subset of the assumptions: unsat is conclusive)
+            s1 = z3.Solver()
+            s1.set('timeout', min(timeout_ms, 2000))
+            s1.add(*self.pc[self.cut_mark:])
+            s1.add(z3.Not(goal))
+            if s1.check() == z3.unsat:
+                return 'unsat', _t.time() - t0, None, ''
+        self.solver.push()
+        self.solver.set('timeout', timeout_ms)
+        try:
+            if is_sym(goal):
+                self.solver.add(z3.Not(goal))
+            r = self.solver.check()
+            model = self.solver.model() if r == z3.sat else None
+            reason = self.solver.reason_unknown() if r == z3.unknown else ''
+        finally:
+            self.solver.pop()
+            self.solver.set('timeout', self.branch_timeout_ms)
+        st = 'sat' if r == z3.sat else ('unsat' if r == z3.unsat else 'unknown')
+        return (st, _t.time() - t0, model, reason)
+
     def oblige(self, oid, goal, meta=None):
         """Record a proof obligation: pc => goal.  Afterwards the goal is assumed."""
         goal = sx.to_bool(goal)
-        self.obligations.append((oid, list(self.pc), goal, meta or {}))
+        meta = dict(meta or {})
+        if self.eager_timeout_ms:
+            meta['eager'] = self.check_now(goal, self.eager_timeout_ms)
+            if meta['eager'][0] == 'unsat':
+                self.obligations.append((oid, None, True, meta))
+                if is_sym(goal):
+                    self.assume(goal)
+                return
+        self.obligations.append((oid, list(self.pc), goal, meta))
         if is_sym(goal):
             self.assume(goal)
         elif not goal:
@@ -288,6 +347,7 @@ class Interp:
         self.depth = 0
         self.max_unroll = max_unroll
         self.yields = None
+        self.merge_ifs = True
         self.inlined = set()
         self.site_stack = []
 
@@ -467,7 +527,7 @@ class Interp:
 
     def st_If(self, st, frame):
         test = self.eval(st.test, frame)
-        if is_sym(test) and self.ctx is not None:
+        if is_sym(test) and self.ctx is not None and self.merge_ifs:
             # if-conversion of side-effect-free integer updates: no path fork, the join is an ite term
             n1 = self._mergeable(st.body)
             n2 = self._mergeable(st.orelse)
@@ -559,6 +619,8 @@ class Interp:
         ordinal = frame.loop_ordinal
         frame.loop_ordinal += 1
         spec = self.loop_specs.get((frame.func.qualname if frame.func else '', ordinal))
+        if spec is not None and getattr(spec, 'unrolled', False):
+            return self.while_unrolled_with_cuts(st, frame, spec, ordinal)
         if spec is not None:
             return self.loop_with_spec(st, frame, spec, ordinal)
         n = 0
@@ -612,6 +674,43 @@ class Interp:
             ctx.oblige('%s/decreases' % base, sx.And(dec0 >= 0, dec1 < dec0), {'kind': 'decreases'})
         raise PathEnd()
 
+    def while_unrolled_with_cuts(self, st, frame, spec, ordinal):
+        """while loop whose trip count is concrete on this path, state cut after every iteration (see loop_unrolled_with_cuts)"""
+        fq = frame.func.qualname
+        base = '%s/loop%d' % (fq.split('.', 1)[1] if fq.startswith('pycdlib.') else fq, ordinal)
+        frame.locals['__k'] = 0
+        if hasattr(spec, 'enter'):
+            spec.enter(self, frame)
+        for name, cl in spec.invariant(self, frame, 'init').items():
+            self.ctx.oblige('%s/loop-init:%s' % (base, name), cl, {'kind': 'loop-init'})
+        k = 0
+        while True:
+            t = self.eval(st.test, frame)
+            if is_sym(t):
+                raise Unsupported('cut while-loop with a symbolic condition at %s' % self.here(st, frame))
+            if not self.truth(t):
+                break
+            k += 1
+            if k > self.max_unroll:
+                raise Incomplete('while unroll bound at %s' % self.here(st, frame))
+            mark = self.ctx.begin_scope()
+            try:
+                self.exec_block(st.body, frame)
+            except ContinueSig:
+                pass
+            except BreakSig:
+                raise Unsupported('break inside a cut loop')
+            frame.locals['__k'] = k
+            for name, cl in spec.invariant(self, frame, 'step').items():
+                self.ctx.oblige('%s/loop-step:%s' % (base, name), cl, {'kind': 'loop-step'})
+            keep = spec.persist(self, frame) if hasattr(spec, 'persist') else ()
+            self.ctx.end_scope(mark, keep)
+            self.ctx.cut_mark = len(self.ctx.pc)
+            spec.havoc(self, frame)
+            for name, cl in spec.invariant(self, frame, 'assume').items():
+                self.ctx.assume(cl)
+        self.exec_block(st.orelse, frame)
+
     def loop_unrolled_with_cuts(self, st, frame, spec, ordinal):
         """Concrete iteration count, but the loop state is cut at every iteration: after iteration k the invariant
         (indexed by k) is proved, the modified variables are havocked and the invariant assumed.  One small VC per iteration
@@ -624,6 +723,7 @@ class Interp:
             self.ctx.oblige('%s/loop-init:%s' % (base, name), cl, {'kind': 'loop-init'})
         for k, v in enumerate(items):
             self.assign(st.target, v, frame)
+            mark = self.ctx.begin_scope()
             try:
                 self.exec_block(st.body, frame)
             except ContinueSig:
@@ -633,6 +733,9 @@ class Interp:
             frame.locals['__k'] = k + 1
             for name, cl in spec.invariant(self, frame, 'step').items():
                 self.ctx.oblige('%s/loop-step:%s' % (base, name), cl, {'kind': 'loop-step'})
+            keep = spec.persist(self, frame) if hasattr(spec, 'persist') else ()
+            self.ctx.end_scope(mark, keep)
+            self.ctx.cut_mark = len(self.ctx.pc)
             spec.havoc(self, frame)
             for name, cl in spec.invariant(self, frame, 'assume').items():
                 self.ctx.assume(cl)
@@ -1006,6 +1109,11 @@ class Interp:
             if b == 0:
                 self.raise_exc('ZeroDivisionError', 'division by zero', self.here(node, frame))
             pos = b > 0
+        # floor division is a function: the same (dividend, divisor) terms always get the same quotient/remainder symbols
+        cache = self.ctx.ghost.setdefault('div_cache', {})
+        key = (a.get_id() if is_sym(a) else ('c', a), b.get_id() if is_sym(b) else ('c', b))
+        if key in cache:
+            return cache[key][2], cache[key][3]
         q = self.ctx.fresh_int('q')
         r = self.ctx.fresh_int('r')
         self.ctx.assume(sx.lift_int(a) == b * q + r)
@@ -1013,6 +1121,7 @@ class Interp:
             self.ctx.assume(z3.And(r >= 0, r < b))
         else:
             self.ctx.assume(z3.And(r <= 0, r > b))
+        cache[key] = (a, b, q, r)
         return q, r
 
     def bitop(self, op, a, b, node, frame):
